@@ -85,26 +85,11 @@ def ev_kind(call, callee, client, state):
     return None
 
 
-def run(repo, rep):
-    dm = repo.module('dimsemessages')
-    hier = exc_hierarchy(repo)
-    k_pdv, lx = overhead(repo)
-    rep.trust('CPython semantics of range, slicing, file read/seek; pydicom command-set encoding')
-    rep.trust('PS3.8 Annex E.2 (message control header bits) and Annex D.1 (maximum length bounds the PDU length field)')
-    rep.rule('C06.S1', 'fragment width = maximum PDU length - k with k exactly the bytes one PDV adds inside the PDU length '
-             '(derived from the layouts) -- the bound holds and is tight', 2)
-    rep.rule('C06.S2', 'chunks tile the sequence: range(0, len, width) with slices [pos:pos+width]; file variant reads width '
-             'bytes and stops on an empty read', 2)
-    rep.rule('C06.S3', 'the not-last flag is exactly "pos + width < len" (bytes) / "a further byte exists, pushed back" (file)', 2)
-    rep.rule('C06.S4', 'flag literals are (1,3) for command and (0,2) for data fragments and map has_next to normal/last', 3)
-    rep.rule('C06.S5', 'all command fragments precede all data fragments; every PDV carries the pc_id parameter and the control '
-             'byte + bytes of the same fragment; one PDV per PDU', 1)
-    rep.rule('C06.S6', 'fragment and fragment_file agree on width expression and flag use', 1)
-    rep.rule('C06.S7', 'the only caller of DIMSEMessage.encode is Association.send, passing the association\'s negotiated maximum', 1)
-
-    # ---------------------------------------------------------------- chunks (S2, S3)
+def chunks_problems(repo, rep=None):
+    """(tiling problems, last-flag problems) of dimsemessages.chunks -- shared by C06.S2/S3 and C10.X6"""
     chunks = repo.func('dimsemessages', 'chunks')
-    rep.analysed(chunks)
+    if rep is not None:
+        rep.analysed(chunks)
     ps2, ps3 = [], []
     gen = None
     seqp, sizep = chunks.params[0], chunks.params[1]
@@ -168,8 +153,60 @@ def run(repo, rep):
                 if isinstance(op, ast.GtE) and d == (want + Affine.c(1)).scale(-1):
                     ok3 = True
         if not ok3:
+            # not in the affine normal form: fold the flag term at every (length, width, position) of a boundary grid and
+            # compare with pos + width < length (integer division / rounding forms are decided this way)
+            from ..arith import CannotEvaluate, eval_value
+            agree, witness = True, None
+            try:
+                for size_v in range(1, 7):
+                    for length_v in range(0, 4 * size_v + 2):
+                        env = {seqp: b'x' * length_v, sizep: size_v}
+                        for st in chunks.node.body:
+                            if isinstance(st, ast.Assign) and len(st.targets) == 1 and isinstance(st.targets[0], ast.Name):
+                                env[st.targets[0].id] = eval_value(st.value, env)
+                        for pos_v in range(0, length_v, size_v):
+                            env[pos] = pos_v
+                            got = bool(eval_value(flag, env))
+                            if got != (pos_v + size_v < length_v):
+                                agree, witness = False, (length_v, size_v, pos_v, got)
+                                raise StopIteration
+            except StopIteration:
+                pass
+            except (CannotEvaluate, Exception):
+                agree = False
+            if agree:
+                ok3 = True
+                if rep is not None:
+                    rep.notes['chunks_flag'] = 'decided by folding %s on the boundary grid' % norm(flag)
+            elif witness is not None:
+                ps3.append('has-next flag %s is %s for a sequence of %d bytes cut into %d-byte chunks at position %d'
+                           % (norm(flag), witness[3], witness[0], witness[1], witness[2]))
+                ok3 = True      # reported with its witness
+        if not ok3:
             ps3.append('has-next flag is %s, which is not equivalent to pos + width < len(seq): the last chunk is '
                        'mis-flagged (at exact multiples or always)' % norm(flag))
+    return ps2, ps3, chunks
+
+
+def run(repo, rep):
+    dm = repo.module('dimsemessages')
+    hier = exc_hierarchy(repo)
+    k_pdv, lx = overhead(repo)
+    rep.trust('CPython semantics of range, slicing, file read/seek; pydicom command-set encoding')
+    rep.trust('PS3.8 Annex E.2 (message control header bits) and Annex D.1 (maximum length bounds the PDU length field)')
+    rep.rule('C06.S1', 'fragment width = maximum PDU length - k with k exactly the bytes one PDV adds inside the PDU length '
+             '(derived from the layouts) -- the bound holds and is tight', 2)
+    rep.rule('C06.S2', 'chunks tile the sequence: range(0, len, width) with slices [pos:pos+width]; file variant reads width '
+             'bytes and stops on an empty read', 2)
+    rep.rule('C06.S3', 'the not-last flag is exactly "pos + width < len" (bytes) / "a further byte exists, pushed back" (file)', 2)
+    rep.rule('C06.S4', 'flag literals are (1,3) for command and (0,2) for data fragments and map has_next to normal/last', 3)
+    rep.rule('C06.S5', 'all command fragments precede all data fragments; every PDV carries the pc_id parameter and the control '
+             'byte + bytes of the same fragment; one PDV per PDU', 1)
+    rep.rule('C06.S6', 'fragment and fragment_file agree on width expression and flag use', 1)
+    rep.rule('C06.S7', 'the only caller of DIMSEMessage.encode is Association.send, passing the association\'s negotiated maximum', 1)
+
+    # ---------------------------------------------------------------- chunks (S2, S3)
+    ps2, ps3, chunks = chunks_problems(repo, rep)
     rep.check(not ps2, 'C06.S2', 'dimsemessages:chunks:tiling', chunks.loc(), 'range(0, len, width) with slices [pos:pos+width]', '; '.join(ps2))
     rep.check(not ps3, 'C06.S3', 'dimsemessages:chunks:last-flag', chunks.loc(), 'has_next == pos + width < len', '; '.join(ps3))
 
